@@ -1,6 +1,7 @@
 import TakVerif.Props.C05
 import TakVerif.Proofs.CmdAnalyze
 import TakVerif.Proofs.CmdCorpus
+import TakVerif.Proofs.CmdAnalyzeSound
 
 /-!
 # C05 at its consumers: the minimax analyzer of `taktician analyze` and `taktician gencorpus -analysis minimax`
@@ -17,13 +18,13 @@ Both turn the value `MinimaxAI.Analyze` reports into a verdict through `WinThres
   be a real forced win / loss whatever the worker labelled before — but (`corpus_minimaxCfg_not_precise`) gencorpus
   runs the default configuration (null-move pruning, slide reduction), for which C05 claims nothing; its labels are
   compared with exhaustive search of the first plies on every run (generator `C05cmd`).
-* `analyze_minimax_value_sound` — `taktician analyze -precise` (without `-all`): the printed `value=` is the value of
-  `Analyze` on an engine newly built for the board size, so above `WinThreshold` it is a real forced win of the
-  analysed position and below `-WinThreshold` a real forced loss.
-  `analyze_minimax_all_value_sound_statement` is the same for `-all` (one engine per colour, used for all positions of
-  that colour); it is NOT proved here: `AnalyzeAll` follows `Analyze` by zero-window searches of the root's children
-  that also write the table, and `C05.verdict_sound` speaks about histories of `Analyze` calls only.  The `-all` runs
-  are compared line by line with the model (engines that never sort) by generator `C05cmd`. -/
+* `analyze_minimax_value_sound` — `taktician analyze -precise`, with or without `-all`: the printed `value=` of every
+  `AI analysis:` block is a real forced win of the position the block is about when above `WinThreshold`, a real forced
+  loss when below `-WinThreshold`.  Under `-all` ONE engine per colour serves all positions of that colour, and every
+  block is an `AnalyzeAll` (= `Analyze` + zero-window searches of the root's children that also write the table);
+  `analyzeAll_sound` (new engine theorem) shows that `AnalyzeAll` keeps the table sound, so such histories are covered
+  like the histories of `Analyze` calls of `C05.verdict_sound`.
+* `analyze_minimax_fresh_engine` — without `-all` the block is `AnalyzeAll` on an engine newly built for the board size. -/
 namespace C05
 open Search Tak
 
@@ -172,80 +173,41 @@ end corpus
 section analyze
 open Tak.CmdAnalyze
 
-/-- the engines of the analyze command over the search model: game `g` (rules + the evaluator `BuildConfig` installs),
-every call in the environment `o` -/
-def AnalyzeEnginesAre (eng : Engines (Eng Move)) (g : Game Pos Move) (o : Oracle Move) : Prop :=
-  (∀ n cfg, eng.newMinimax n cfg = Eng.new g cfg) ∧
-  (∀ cfg e p, eng.analyzeAll cfg e p =
-    match Search.analyzeAll g cfg o p e with
-    | .error x => .error x
-    | .ok ((pvs, v, _), e') => .ok ((pvs, v), e'))
+/-- **one `AnalyzeAll` keeps what `verdict_sound` needs** (new engine theorem, `Proofs/AnalyzeAllSound.lean`): in a
+precise configuration, on an engine whose table is sound (a new engine's is, and `Analyze` / `AnalyzeAll` keep it so),
+`AnalyzeAll` — `Analyze` followed by zero-width-window searches of the root's children, which also write the table —
+leaves the table sound and reports a value that is a real forced win above `WinThreshold` and a real forced loss
+below `-WinThreshold`.  So histories that mix `Analyze` and `AnalyzeAll` calls are covered like histories of `Analyze`. -/
+theorem analyzeAll_sound {g : Game Pos Move} (hg : GameOK g) (he : EvalOK g) (hinj : HashInj g)
+    {cfg : Search.Cfg} (hpr : Precise cfg.opts) {o : Oracle Move} (hord : OrderOK o) (p : Pos) (s : Eng Move)
+    (hts : TableSound g s) :
+    Sat (Search.analyzeAll g cfg o p s) (fun x => TableSound g x.2 ∧
+      (x.1.2.1 > Facts.winThreshold → Win g p) ∧ (x.1.2.1 < -Facts.winThreshold → Loss g p)) :=
+  Search.analyzeAll_sound hg he hinj hpr hord p s hts
 
-theorem minimaxCfg_precise (f : Flags) (hp : f.precise = true) (hs : f.symmetry = false) : Precise (minimaxCfg f).opts := by
-  unfold minimaxCfg
-  simp only [hp, if_true, SOpts.makePrecise, hs]
-  exact ⟨rfl, rfl, rfl, rfl⟩
-
-/-- the value `AnalyzeAll` returns is the value of the `Analyze` call it starts with -/
-theorem analyzeAll_value {g : Game Pos Move} {cfg : Search.Cfg} {o : Oracle Move} {p : Pos} {s s' : Eng Move}
-    {pvs : List (List Move)} {v : Int} {st : Stats}
-    (h : Search.analyzeAll g cfg o p s = .ok ((pvs, v, st), s')) :
-    ∃ pv st0 s0, analyze g cfg o p s = .ok ((pv, v, st0), s0) := by
-  unfold Search.analyzeAll at h
-  split at h
-  · cases h
-  · rename_i pv v0 st0 s0 ha
-    refine ⟨pv, st0, s0, ?_⟩
-    unfold analyzeAllFrom at h
-    split at h
-    · cases h; exact ha
-    · split at h
-      · cases h
-      · cases h; exact ha
-      · cases h; exact ha
-      · cases h; exact ha
-
-/-- **`taktician analyze -precise` prints sound verdicts** (without `-all`): whatever the file and the selection flags,
-the value of every `AI analysis:` block the command prints is a real forced win of the position analysed when it is
-above `WinThreshold`, and a real forced loss when below `-WinThreshold`.  Hypotheses: C05's on the game (`GameOK`,
-`EvalOK`, `HashInj` = NoCollision), a move order that permutes (`OrderOK`), `-symmetry` off. -/
+/-- **`taktician analyze -precise` prints sound verdicts — with or without `-all`.**  Whatever the file and the
+selection flags, the value of every `AI analysis:` block the command prints is a real forced win of the position the
+block is about when it is above `WinThreshold`, and a real forced loss when below `-WinThreshold`.  Without `-all` the
+engine is new; with `-all` ONE engine per colour serves all positions of that colour (a history of `AnalyzeAll` calls
+on related positions), and the table stays sound along the way.
+Hypotheses: the engines are the search model over the game `g` (`EnginesAre`: rules + the evaluator `BuildConfig`
+installs; every call with move order / cancel flag `o`), C05's hypotheses on the game (`GameOK`, `EvalOK`,
+`HashInj` = NoCollision), a move order that permutes (`OrderOK`), `-symmetry` off. -/
 theorem analyze_minimax_value_sound (env : PTN.Env) (eng : Engines (Eng Move)) (g : Game Pos Move) (o : Oracle Move)
-    (heng : AnalyzeEnginesAre eng g o) (hg : GameOK g) (he : EvalOK g) (hinj : HashInj g) (hord : OrderOK o)
-    (f : Flags) (input : PTN.Bytes) (hall : f.all = false) (hp : f.precise = true) (hs : f.symmetry = false)
+    (heng : EnginesAre eng g o) (hg : GameOK g) (he : EvalOK g) (hinj : HashInj g) (hord : OrderOK o)
+    (f : Flags) (input : PTN.Bytes) (hp : f.precise = true) (hs : f.symmetry = false)
     (q : Pos) (pvs : List (List Move)) (val : Int)
     (hi : Item.analysis q pvs val ∈ (execute env eng f input).1) :
-    (val > Facts.winThreshold → Win g q) ∧ (val < -Facts.winThreshold → Loss g q) := by
-  obtain ⟨ai', h⟩ := execute_single_analysis env eng f input hall q pvs val hi
-  rw [heng.1, heng.2] at h
-  cases haa : Search.analyzeAll g (minimaxCfg f) o q (Eng.new g (minimaxCfg f)) with
-  | error x => rw [haa] at h; cases h
-  | ok r =>
-    obtain ⟨⟨pvs', v, st⟩, s'⟩ := r
-    rw [haa] at h
-    simp only [Except.ok.injEq, Prod.mk.injEq] at h
-    obtain ⟨⟨_, hv⟩, _⟩ := h
-    subst hv
-    obtain ⟨pv, st0, s0, ha⟩ := analyzeAll_value haa
-    have := C05.analyze_sound hg he hinj (minimaxCfg_precise f hp hs) hord q (Eng.new g (minimaxCfg f))
-      (tableSound_new _) _ ha
-    exact this.2
+    (val > Facts.winThreshold → Win g q) ∧ (val < -Facts.winThreshold → Loss g q) :=
+  execute_analysis_sound env heng hg he hinj hord f input hp hs _ hi
 
-/-- the same for `-all` (ONE engine per colour for all positions of that colour) — not proved, see the header -/
-def analyze_minimax_all_value_sound_statement (env : PTN.Env) (eng : Engines (Eng Move)) (g : Game Pos Move)
-    (o : Oracle Move) : Prop :=
-  AnalyzeEnginesAre eng g o → GameOK g → EvalOK g → HashInj g → OrderOK o →
-  ∀ (f : Flags) (input : PTN.Bytes), f.precise = true → f.symmetry = false →
-  ∀ q pvs val, Item.analysis q pvs val ∈ (execute env eng f input).1 →
-    (val > Facts.winThreshold → Win g q) ∧ (val < -Facts.winThreshold → Loss g q)
-
-/-- the proved part of the statement: runs without `-all` -/
-theorem analyze_minimax_all_value_sound_partial (env : PTN.Env) (eng : Engines (Eng Move)) (g : Game Pos Move)
-    (o : Oracle Move) (heng : AnalyzeEnginesAre eng g o) (hg : GameOK g) (he : EvalOK g) (hinj : HashInj g)
-    (hord : OrderOK o) (f : Flags) (input : PTN.Bytes) (hall : f.all = false) (hp : f.precise = true)
-    (hs : f.symmetry = false) :
-    ∀ q pvs val, Item.analysis q pvs val ∈ (execute env eng f input).1 →
-      (val > Facts.winThreshold → Win g q) ∧ (val < -Facts.winThreshold → Loss g q) :=
-  fun q pvs val hi => analyze_minimax_value_sound env eng g o heng hg he hinj hord f input hall hp hs q pvs val hi
+/-- without `-all` the block is `AnalyzeAll` on an engine newly built for the board size (so C05's theorems about a
+fresh engine — `analyze_exact` without a table, `verdict_complete` — apply to the `Analyze` call it starts with) -/
+theorem analyze_minimax_fresh_engine (env : PTN.Env) (eng : Engines (Eng Move)) (f : Flags) (input : PTN.Bytes)
+    (hall : f.all = false) (q : Pos) (pvs : List (List Move)) (val : Int)
+    (hi : Item.analysis q pvs val ∈ (execute env eng f input).1) :
+    ∃ ai', eng.analyzeAll (minimaxCfg f) (eng.newMinimax q.size (minimaxCfg f)) q = .ok ((pvs, val), ai') :=
+  execute_single_analysis env eng f input hall q pvs val hi
 
 /-- the flags `-precise -sort=false -depth 3` give a precise configuration of depth 3 without sorting -/
 example : Precise (minimaxCfg { precise := true, sort := false, depth := 3 }).opts ∧
